@@ -1,0 +1,31 @@
+//go:build verif
+
+// Contracts for govc (see /verif/DESIGN.md). Comment-only file: no executable code.
+
+package btp
+
+// ---------------------------------------------------------------------------
+// C29 (dispatch): every network type of the block that has a proof context gets its proof verified
+// ---------------------------------------------------------------------------
+
+//@ property C29
+// ctxs(D, H, k): number of the first k network-type digests whose network type has a proof context
+//@ smt int lemma (define-fun-rec ctxs ((D (Array Int Iface)) (H (Array Int Bool)) (k Int)) Int (ite (<= k 0) 0 (+ (ctxs D H (- k 1)) (ite (select H (ntd_id (select D (- k 1)))) 1 0))))
+//@ smt int func (declare-fun ctxs ((Array Int Iface) (Array Int Bool) Int) Int)
+//@ lemma ctxs_zero int : forall D ifacearr, H boolarr :: {ctxs(D, H, 0)} ctxs(D, H, 0) == 0
+//@ lemma ctxs_step int : forall D ifacearr, H boolarr, k int :: {ctxs(D, H, k + 1)} k >= 0 ==> ctxs(D, H, k + 1) == ctxs(D, H, k) + (H[ntd_id(D[k])] ? 1 : 0)
+
+//@ spec digestList(bd) = sliceof(module.NetworkTypeDigest, btd_digests(bd))
+//@ spec digestsOf(bd) = arr(digestList(bd))
+//@ func (m *proofContextMap) Verify(srcUID, height, round, bd, ntsdProves) (err)
+//@   nosafety
+//@   use ctxs_zero, ctxs_step
+//@   modifies *
+//@   requires m != nil && m.pcMap != nil && bd != nil && ghost(pc_verified) == 0
+//@   opt protect m.pcMap[*], digestList(bd)[*]
+//@   ensures [all_verified] err == nil ==> ghost(pc_verified) == ctxs(digestsOf(bd), old(hasmap(m.pcMap)), len(btd_digests(bd)))
+//@   loop 0: invariant -1 <= rangeindex && rangeindex < len(btd_digests(bd)) && cnt == ctxs(digestsOf(bd), hasmap(m.pcMap), rangeindex + 1) && hasmap(m.pcMap) == old(hasmap(m.pcMap)) && m.pcMap == old(m.pcMap) && ghost(pc_verified) == 0
+//@   loop 1: invariant -1 <= rangeindex && rangeindex < len(btd_digests(bd))
+//@   loop 1: invariant i == ctxs(digestsOf(bd), hasmap(m.pcMap), rangeindex + 1)
+//@   loop 1: invariant hasmap(m.pcMap) == old(hasmap(m.pcMap)) && m.pcMap == old(m.pcMap)
+//@   loop 1: invariant ghost(pc_verified) == i
